@@ -21,13 +21,15 @@ def xor_rep(d: bytes, k: bytes) -> bytes:
 def guard_cfg(opts, stored):
     out = b""
     for i, o in enumerate(opts, 1):
+        if o == "nochecksum":
+            continue  # (a guard configuration without a payload checksum: nothing it protects may be reported)
         if o == "checksum":
             out += struct.pack(">HHHI", 9, 2, 4, stored)
         elif o == "ip":
             out += struct.pack(">HHHI", 8, 2, 4, 4660 + i)
         else:
             out += struct.pack(">HHHH", OPT[o], 1, 2, 4660 + i)
-    if "checksum" not in opts:
+    if "checksum" not in opts and "nochecksum" not in opts:
         out += struct.pack(">HHHI", 9, 2, 4, stored)
     out += b"\x00\x00"
     return out.ljust(GUARD, b"\x00")
